@@ -82,6 +82,14 @@ class Ctx:
         self.obs.append({"rule": rule, "key": key, "verdict": "holds" if ok else "violated", "detail": detail, "where": where})
         return ok
 
+    def advise(self, rule, key, detail="", where=""):
+        """record that a function's normal form no longer equals the reviewed reference.  This is NOT a verdict on the
+        property: a behaviour-preserving rewrite in an idiom the canonical forms do not cover looks the same.  It is
+        reported (evidence, a REVIEW line on stdout) and the check stays green; the fact rules and the comparisons with the
+        transcribed standard decide."""
+        self.obs.append({"rule": rule, "key": key, "verdict": "unreviewed-change", "detail": detail, "where": where})
+        return True
+
     def floor(self, rule, name, count, minimum):
         """fail closed when a rule matched fewer instances than were confirmed by hand"""
         self.floors["%s.%s" % (rule, name)] = {"count": count, "floor": minimum}
@@ -155,6 +163,7 @@ def run_check(prop, tier):
     elif os.path.exists(vpath):
         os.remove(vpath)
     holds = [o for o in ctx.obs if o["verdict"] == "holds"]
+    advisory = [o for o in ctx.obs if o["verdict"] == "unreviewed-change"]
     distinct = len({(o["rule"], o["key"]) for o in ctx.obs})
     samples = []
     seen_rules = set()
@@ -175,6 +184,7 @@ def run_check(prop, tier):
         "analysed": dict(ctx.analysed, tree_hash=h, crates=factsmod.CRATES, configs=configs),
         "floors": ctx.floors,
         "known_findings_reported": [o["rule"] + " " + o["key"] for o in reported_known],
+        "unreviewed_changes": [{"rule": o["rule"], "key": o["key"], "detail": o["detail"][:400]} for o in advisory],
         "exhaustive": True,
         "notes": ctx.notes,
     }
@@ -192,7 +202,10 @@ def run_check(prop, tier):
         "violations": len(violations),
     }
     json.dump(ev, open(os.path.join(evdir, prop + ".json"), "w"), indent=1)
-    print("%s: %d obligations, %d hold, %d known findings, %d violations (%.1fs, tree %s)" % (prop, len(ctx.obs), len(holds), len(reported_known), len(violations), time.time() - t0, h))
+    print("%s: %d obligations, %d hold, %d known findings, %d violations%s (%.1fs, tree %s)" % (
+        prop, len(ctx.obs), len(holds), len(reported_known), len(violations), (", %d unreviewed changes" % len(advisory)) if advisory else "", time.time() - t0, h))
+    for o in advisory[:12]:
+        print("  REVIEW %s %s -- %s" % (o["rule"], o["key"], o["detail"][:300]))
     if violations:
         for o in violations:
             print("  violated %s %s -- %s %s" % (o["rule"], o["key"], o["detail"], o["where"]))
